@@ -643,6 +643,9 @@ pub fn format_code(
 		ConvTypeV::Char => match value.clone() {
 			Val::Num(n) => {
 				let n = n.get();
+				if !(0.0..=f64::from(u32::MAX)).contains(&n) {
+					bail!("%c expected a unicode codepoint, got {n}");
+				}
 				tmp_out.push(
 					std::char::from_u32(n as u32)
 						.ok_or_else(|| InvalidUnicodeCodepointGot(n as u32))?,
